@@ -17,3 +17,4 @@ for pid in ("C10", "C12", "C13", "C15"):
     bounded(pid, "sched_small", "bounded/sched_small.py")
 bounded("C16", "eventqueue", "bounded/eventqueue.py")
 bounded("C03", "eventqueue", "bounded/eventqueue.py")
+bounded("C09", "repro_api", "bounded/repro_api.py")
